@@ -405,7 +405,7 @@ Proof.
         cbn zeta in H. unfold set_caller in H. destruct (q_wait r), (q_id r =? 0); st_simpl; rewrite Eold in H; discriminate.
       * unfold step_wtakeack in *. destruct (writer s), (ackq s); st_simpl; rewrite Eold in H; discriminate.
       * unfold step_wwritehdr in *. destruct (writer s) as [| | | o | o | | |]; try (rewrite Eold in H; discriminate).
-        destruct (f_len (o_frame (stamp_o cfg (version s) o)) =? 0) eqn:El; st_simpl; [|rewrite Eold in H; discriminate].
+        cbv zeta in *. destruct (f_len (o_frame o) =? 0) eqn:El; st_simpl; [|rewrite Eold in H; discriminate].
         rewrite existsb_app, Eold in H. cbn in H. rewrite orb_false_r in H.
         unfold after_frame. unfold is_close in H. rewrite H. left; reflexivity.
       * unfold step_wwritepay in *. destruct (writer s) as [| | | o | o | | |]; try (rewrite Eold in H; discriminate).
